@@ -338,8 +338,44 @@ def run(ctx):
                 ctx.violation("repulsive-coefficient", f"after one negative sample head is {H[0].tolist()}, closed form gives {want2.tolist()}", case)
         ctx.case(key="closed" + str(case), nontrivial=False, part="closed-form")
 
-    # ---- generic-output-metric kernel: whole runs of optimize_layout_generic vs the model's genRunEpochs ----
+    # ---- generic kernel, one attractive visit with the tail moved too: both endpoints against the closed form computed from the
+    #      positions *before* the visit (gamma = 0: the negative samples contribute nothing, so no random draw matters) ----
     import umap.distances as UD
+    for t in range(120 if ctx.thorough else 30):
+        dim = int(rng.integers(1, 4))
+        a, b = [(1.5769, 0.8951), (1.0, 1.0), (0.3, 1.6)][int(rng.integers(0, 3))]
+        scale = float(rng.choice([0.2, 0.6, 1.0, 3.0]))          # short edges overshoot at alpha = 1: the head ends beyond the tail
+        x = (rng.normal(size=dim) * scale).astype(np.float32)
+        y = (rng.normal(size=dim) * scale).astype(np.float32)
+        dd = float(np.sqrt(np.sum((x.astype(np.float64) - y) ** 2)))
+        if dd < 1e-3:
+            continue
+        alpha0 = 1.0
+        H = np.vstack([x, y]).astype(np.float32)
+        case = {"family": "generic-attractive-both-ends", "x": x.tolist(), "y": y.tolist(), "a": a, "b": b}
+        try:
+            out = L.optimize_layout_generic(H, H, np.array([0], dtype=np.int32), np.array([1], dtype=np.int32), 2, 2, np.array([1.0]), a, b,
+                                            np.array([1, 2, 3], dtype=np.int64), 0.0, alpha0, 5.0,
+                                            UD.named_distances_with_gradients["euclidean"], (), move_other=True)
+        except Exception as e:  # noqa
+            ctx.violation("exception", f"optimize_layout_generic raised {type(e).__name__}: {e}", case)
+            continue
+        out = np.asarray(out, dtype=np.float64)
+        x64, y64 = x.astype(np.float64), y.astype(np.float64)
+        wl = 1.0 / (1 + a * dd ** (2 * b))
+        coef = 2 * b * (wl - 1) / (dd + 1e-6)
+        g_head = (x64 - y64) / (1e-6 + dd)
+        want_head = x64 + np.clip(coef * g_head, -4, 4) * alpha0
+        want_tail = y64 + np.clip(coef * (-g_head), -4, 4) * alpha0
+        tol = 2e-3 * max(1.0, float(np.max(np.abs(want_head))), float(np.max(np.abs(want_tail))))
+        if np.max(np.abs(out[0] - want_head)) > tol:
+            ctx.violation("generic-attractive", f"generic kernel, one visit: head moved to {out[0].tolist()}, closed form {want_head.tolist()}", case)
+        elif np.max(np.abs(out[1] - want_tail)) > tol:
+            ctx.violation("generic-attractive", f"generic kernel, one visit with move_other: tail moved to {out[1].tolist()}, the attractive step from the "
+                                                f"positions before the visit gives {want_tail.tolist()}", case)
+        ctx.case(key="genclosed" + str(case), nontrivial=False, part="generic-closed-form")
+
+    # ---- generic-output-metric kernel: whole runs of optimize_layout_generic vs the model's genRunEpochs ----
     pend = []
     for t in range(120 if ctx.thorough else 24):
         g = random_graph(rng, dyadic=True)
